@@ -40,12 +40,25 @@ enum VersionRequirement {
     WildcardMajor(u64),
     /// Wildcard minor: 1.2.* means >=1.2.0 <1.3.0
     WildcardMinor(u64, u64),
+    /// A requirement written with a partial version ("~1", "=1.2", ">1"): it matches like
+    /// `requirement`; when compared with the latest version it starts at the partial version
+    /// padded with zeros
+    Partial {
+        requirement: Box<VersionRequirement>,
+        anchor: Version,
+    },
 }
 
 impl VersionRequirement {
     /// Parse a single version requirement (not comma-separated)
     fn parse(spec: &str) -> Option<Self> {
         let spec = spec.trim();
+
+        // A partial version ("1", "~1.2", "<=1") stands for a range of versions, not for the
+        // version padded with zeros
+        if let Some(req) = Self::parse_partial(spec) {
+            return Some(req);
+        }
 
         if let Some(rest) = spec.strip_prefix(">=") {
             parse_version(rest.trim()).map(VersionRequirement::Gte)
@@ -69,6 +82,51 @@ impl VersionRequirement {
             // Default (no prefix) behaves like caret in Cargo
             parse_version(spec).map(VersionRequirement::Caret)
         }
+    }
+
+    /// Parse a requirement whose version is partial: "1" or "1.2", with or without an operator.
+    /// Cargo reads it as the versions that start with these numbers: "=1.2" and "~1.2" are 1.2.x,
+    /// "~1" is 1.x, "0" is 0.x, ">1" is >=2.0.0 and "<=1.2" is <1.3.0.
+    fn parse_partial(spec: &str) -> Option<Self> {
+        let (op, rest) = ["<=", ">=", "<", ">", "=", "^", "~"]
+            .iter()
+            .find_map(|op| spec.strip_prefix(op).map(|rest| (*op, rest)))
+            .unwrap_or(("^", spec));
+        let rest = rest.trim();
+
+        let mut numbers = rest.split('.').map(|n| n.parse::<u64>());
+        let major = numbers.next()?.ok()?;
+        let minor = match numbers.next() {
+            Some(minor) => Some(minor.ok()?),
+            None => None,
+        };
+        if numbers.next().is_some() {
+            // A full version (or a wildcard pattern)
+            return None;
+        }
+
+        // The lowest version that starts with the given numbers: its prereleases count too
+        let floor = |major: u64, minor: u64| Version {
+            pre: semver::Prerelease::new("0").unwrap_or_default(),
+            ..Version::new(major, minor, 0)
+        };
+
+        let requirement = match (op, minor) {
+            (">=", minor) => VersionRequirement::Gte(floor(major, minor.unwrap_or(0))),
+            (">", None) => VersionRequirement::Gte(floor(major.checked_add(1)?, 0)),
+            (">", Some(minor)) => VersionRequirement::Gte(floor(major, minor.checked_add(1)?)),
+            ("<=", None) => VersionRequirement::Lt(floor(major.checked_add(1)?, 0)),
+            ("<=", Some(minor)) => VersionRequirement::Lt(floor(major, minor.checked_add(1)?)),
+            ("<", minor) => VersionRequirement::Lt(floor(major, minor.unwrap_or(0))),
+            ("^", Some(minor)) if major > 0 => VersionRequirement::Caret(floor(major, minor)),
+            (_, None) => VersionRequirement::WildcardMajor(major),
+            (_, Some(minor)) => VersionRequirement::WildcardMinor(major, minor),
+        };
+
+        Some(VersionRequirement::Partial {
+            requirement: Box::new(requirement),
+            anchor: Version::new(major, minor.unwrap_or(0), 0),
+        })
     }
 
     /// Parse wildcard patterns like "1.*" or "1.2.*"
@@ -131,6 +189,7 @@ impl VersionRequirement {
             VersionRequirement::WildcardMinor(major, minor) => {
                 version.major == *major && version.minor == *minor
             }
+            VersionRequirement::Partial { requirement, .. } => requirement.satisfies(version),
         }
     }
 
@@ -149,6 +208,7 @@ impl VersionRequirement {
             VersionRequirement::WildcardMinor(major, minor) => {
                 Some(Version::new(*major, *minor, 0))
             }
+            VersionRequirement::Partial { anchor, .. } => Some(anchor.clone()),
         }
     }
 }
